@@ -7,7 +7,7 @@ use super::sendbody::send_body_flow;
 use crate::engine::{guarded, pattern, Report, Tier, Violation};
 use crate::refmodel::chunked::decode_strict;
 
-pub const RULE: &str = "every output length n in 0..=3*10248+64 (thorough: 0..=10*10248+64) plus boundary set {k*10248+d, 16^j+d}: m = calculate_max_input(n) on the real SendBody flow, then the real write(input[..m], out[..n]); chunked and length-delimited bodies; for length-delimited bodies additionally Content-Length {0,1,100,20000} x already-accounted {0,1,half,all} x n up to 70000 (the advertised size is n whatever remains); the same check from non-initial states: after an earlier write of {0 (an end signal, only into buffers too small for the terminator),1,3,17} input bytes into a buffer of 0..=24 bytes in the same SendBody state, and for a chunked body selected by a mixed-case Transfer-Encoding: Chunked next to a Content-Length header, n in 0..=300 u 4090..=4110 u 10240..=10270. distinct = distinct (mode, m>0, chunks emitted, hex digits of last chunk) classes";
+pub const RULE: &str = "every output length n in 0..=3*10248+64 (thorough: 0..=10*10248+64) plus boundary set {k*10248+d, 16^j+d}: m = calculate_max_input(n) on the real SendBody flow, then the real write(input[..m], out[..n]); chunked and length-delimited bodies; for length-delimited bodies additionally Content-Length {0,1,100,20000} x already-accounted {0,1,half,all} x n up to 70000 (the advertised size is n whatever remains); the same check from non-initial states: after an earlier write of {0 (an end signal, only into buffers too small for the terminator),1,3,17} input bytes into a buffer of 0..=24 bytes in the same SendBody state, and for a chunked body selected by a mixed-case Transfer-Encoding: Chunked next to a Content-Length header, for a GET converted with send-body-despite-method without framing header, and for an HTTP/1.0 POST without Content-Length, n in 0..=300 u 4090..=4110 u 10240..=10270. distinct = distinct (mode, m>0, chunks emitted, hex digits of last chunk) classes";
 
 const CHUNK: usize = 10 * 1024 + 8;
 
@@ -40,6 +40,10 @@ fn one(n: usize, chunked: bool) -> (usize, Option<(String, String)>, String) {
 fn one_from(n: usize, chunked: bool, variant: &str, prior: Option<(usize, usize)>) -> (usize, Option<(String, String)>, String) {
     let r = guarded(|| {
         let mut f = match variant {
+            // body-less method converted with send_body_despite_method(), no framing header: default chunked
+            "despite-default" => super::sendbody::send_body_flow_despite("GET"),
+            // HTTP/1.0 POST without Content-Length: the library frames the body in chunks all the same
+            "http10-default" => super::sendbody::send_body_flow_cfg(&crate::driver::ReqCfg::new("POST", "1.0", "http://a.test/p")),
             "te-mixed-case+cl" => super::sendbody::send_body_flow_cfg(&crate::driver::ReqCfg::new("POST", "1.1", "http://a.test/p").orig("transfer-encoding", "Chunked").orig("content-length", "5")),
             _ => send_body_flow(if chunked { None } else { Some(n as u64 + 5 + prior.map(|p| p.0 as u64).unwrap_or(0)) }),
         };
@@ -208,6 +212,8 @@ pub fn run(tier: Tier) -> Report {
     let mut extra_jobs: Vec<(usize, bool, &'static str, Option<(usize, usize)>)> = Vec::new();
     for &n in &small_ns {
         extra_jobs.push((n, true, "te-mixed-case+cl", None));
+        extra_jobs.push((n, true, "despite-default", None));
+        extra_jobs.push((n, true, "http10-default", None));
         for i0 in [0usize, 1, 3, 17] {
             for b0 in 0..=24usize {
                 if i0 == 0 && b0 >= 5 {
